@@ -67,7 +67,8 @@ CORRUPTIONS (kind, where):
     "tweak_flip"      i            one bit of the tweak              opt: pos
     "tweak_remove"    i            the tweak field is dropped (signature stays)
     "tweak_add"       i            a tweak field is added (signature stays)
-    "sig_other_key"   i            re-signed by the stranger key "x" (same tweak)
+    "sig_other_key"   i            re-signed by the stranger key "x" (same tweak); opt key_id=: by
+                                   chain.keys[key_id] instead (register it first: chain.add_key(id, key))
     "sig_swap"        (i, j)       the two elements exchange their signatures
     "reparent"        (i, name)    `signed_by` is rewritten (signature stays)
     "key_subst"       i            the embedded key is replaced by the stranger's and the element
@@ -471,6 +472,10 @@ class Chain:
         self.resym()
         return i
 
+    def add_key(self, kid, key):
+        """Make a foreign key known to this chain (e.g. another device's, to forge with)."""
+        return self._reg(kid, key)
+
     def respell(self, where, field, member):
         """Write `field` ("message" | "signature" | "tweak") of element `where` in another spelling of the
         same bytes (SPELL_ACCEPTED) or in a malformed one (SPELL_REFUSED) when the file is rendered."""
@@ -580,7 +585,7 @@ class Chain:
             e["tweak"] = bytes(rng.randrange(256) for _ in range(32)).hex()
         elif kind == "sig_other_key":
             tw = bytes.fromhex(e["tweak"]) if "tweak" in e else None
-            e["signature"] = self._sign(i, "x", tw, bytes.fromhex(e["message"])).hex()
+            e["signature"] = self._sign(i, opt.get("key_id", "x"), tw, bytes.fromhex(e["message"])).hex()
         elif kind == "key_subst":
             m = bytes.fromhex(e["message"])
             a, b = key_span(e["name"], len(m))
